@@ -9,7 +9,7 @@ RULE = ('generated layouts: 4-10 objects with unique random contents stored loos
         'returned set = S intersect present, every view on the same and on a fresh handle = model, no loose file / index row / duplicate '
         'of a deleted key left, rows and loose files of other objects unchanged; then repack(mode in KEEP/YES/NO/AUTO): every pack is '
         'exactly the tiling by its live rows, packs without live rows are gone, the plain and stored bytes of deleted objects occur in no '
-        'pack file, a hole-free pack is byte-identical under KEEP. Distinct = case digest.')
+        'pack file, a hole-free pack is byte-identical under KEEP; 40 % of the cases run a second delete + repack round (pack ids may have gaps by then). Distinct = case digest.')
 ASSUMPTIONS = ['deleted contents are unique random bytes >= 40 bytes so that a substring search is meaningful', 'no concurrent access during delete (documented requirement)']
 TECHNIQUE = 'runtime monitoring: generated layouts x subset classes x repack modes with model, raw-reader and byte-search oracles'
 
